@@ -1,0 +1,61 @@
+// © Copyright 2025-2026, Query.Farm LLC - https://query.farm
+// SPDX-License-Identifier: Apache-2.0
+
+//go:build verif
+
+package vgirpc
+
+import (
+	"net"
+	"time"
+)
+
+// Verification seams, compiled in only with the "verif" build tag.
+//
+// A deterministic simulator installs these function variables to take over
+// goroutine scheduling, goroutine creation, timers and listening sockets.
+// Nothing in the package calls the lower-case wrappers directly: the
+// simulator's build step inserts the calls into a scratch copy of the
+// sources (a go build overlay), so the shipped sources and the default build
+// are unchanged. With the tag on and no simulator installed every wrapper
+// falls through to the ordinary behaviour.
+var (
+	// VerifYield is called before every synchronisation operation with a
+	// stable site label and, for locks, a pointer to the primitive about to
+	// be acquired.
+	VerifYield func(site string, obj any)
+	// VerifGo replaces a go statement.
+	VerifGo func(site string, fn func())
+	// VerifAfterFunc replaces time.AfterFunc.
+	VerifAfterFunc func(site string, d time.Duration, fn func()) *time.Timer
+	// VerifListen replaces net.Listen.
+	VerifListen func(network, address string) (net.Listener, error)
+)
+
+func verifYield(site string, obj any) {
+	if f := VerifYield; f != nil {
+		f(site, obj)
+	}
+}
+
+func verifGo(site string, fn func()) {
+	if f := VerifGo; f != nil {
+		f(site, fn)
+		return
+	}
+	go fn()
+}
+
+func verifAfterFunc(site string, d time.Duration, fn func()) *time.Timer {
+	if f := VerifAfterFunc; f != nil {
+		return f(site, d, fn)
+	}
+	return time.AfterFunc(d, fn)
+}
+
+func verifListen(network, address string) (net.Listener, error) {
+	if f := VerifListen; f != nil {
+		return f(network, address)
+	}
+	return net.Listen(network, address)
+}
